@@ -34,7 +34,7 @@ type C15Case struct {
 func genC15(t *rapid.T, tier string) C15Case {
 	c := C15Case{Pair: genPair(t, tier, core.GenOpts{
 		Caches: []string{"none", "none", "big", "arc"}, Vals: []string{core.VInt},
-		Keys:     []string{core.KLK, core.KLK, core.KInt, core.KUint64, core.KString, core.KBytes, core.KStruct},
+		Keys:     []string{core.KLK, core.KLK, core.KInt, core.KUint64, core.KString, core.KBytes, core.KStruct, core.KInt32},
 		BigOneIn: 10,
 	}, true)}
 	c.Pair.OldRes, c.Pair.NewRes = "reloaded", "reloaded"
